@@ -267,7 +267,8 @@ def check_volume(case, ctx):
 @st.composite
 def _sweep_cases(draw, tier):
     d = draw(gen.spline(kinds=("curve", "surface"), dims=(3,), max_p=3, max_extra=3, different=True, distinct=True))
-    return {"defn": d, "vec": [draw(st.integers(-32, 32)) / 8.0 for _ in range(3)], "again": draw(st.booleans())}
+    return {"defn": d, "vec": [draw(st.integers(-32, 32)) / 8.0 for _ in range(3)], "again": draw(st.booleans()),
+            "scale_exp": draw(st.sampled_from([0, 0, 0, 0, -30, -30, 20]))}
 
 
 def check_sweep(case, ctx):
@@ -275,23 +276,26 @@ def check_sweep(case, ctx):
     vec = case["vec"]
     if not any(vec):
         vec = [0.0, 0.0, 1.0]
-    obj = build.make(d)
+    # the model may be given in very small (or large) units: coordinates and sweep vector times an exact power of two
+    S = 2.0 ** case.get("scale_exp", 0)
+    ctx.label("tiny-or-large-units", S != 1.0)
+    obj = build.make(dict(d, P=[[c * S for c in q] for q in d["P"]]))
     _nt(ctx, d)
     ctx.nt(True, "sweep-" + d["kind"])
-    _sweep_once(ctx, d, obj, vec)
+    _sweep_once(ctx, d, obj, vec, S)
     if case.get("again"):
         # the same object, moved and stretched in place, swept along the same vector once more
         d2 = dict(d)
         d2["P"] = [[c * 2.0 + 0.5 * (i + 1) for i, c in enumerate(q)] for q in d["P"]]
-        obj.ctrlpts = [list(q) for q in d2["P"]]
+        obj.ctrlpts = [[c * S for c in q] for q in d2["P"]]
         ctx.label("swept-again-after-edit")
-        _sweep_once(ctx, d2, obj, vec)
+        _sweep_once(ctx, d2, obj, vec, S)
 
 
-def _sweep_once(ctx, d, obj, vec):
-    R = build.exact_from(d, obj)
+def _sweep_once(ctx, d, obj, vec, S=1.0):
+    R = build.exact_from(d, obj)          # in the units of the generated definition; the library works in units of S
     before = build.snapshot(obj)
-    sw = sweeping.sweep_vector(obj, list(vec))
+    sw = sweeping.sweep_vector(obj, [v * S for v in vec])
     ctx.check(build.snapshot(obj) == before, "sweep-modified-input", "sweep_vector modified its input")
     pdim = len(d["degree"])
     ctx.check(sw.pdimension == pdim + 1, "sweep-dimension", "swept shape has %d parametric directions" % sw.pdimension)
@@ -314,7 +318,7 @@ def _sweep_once(ctx, d, obj, vec):
                 for end, shift in ((0, 0.0 if lo_is_input else 1.0), (1, 1.0 if lo_is_input else 0.0)):
                     prm = [float(x) for x in us]
                     prm.insert(k, float(sdom[k][end]))
-                    got = sw.evaluate_single(tuple(prm))
+                    got = [x / S for x in sw.evaluate_single(tuple(prm))]
                     want = [float(x) + shift * v for x, v in zip(r, vec)]
                     if any(abs(a - b) > 1e-9 * (1 + float(sc) + abs(b)) for a, b in zip(got, want)):
                         bad = "section at new-direction end %d, parameter %r: %r, expected %r" % (end, prm, got, want)
